@@ -33,8 +33,10 @@ type C14Scenario struct {
 	TailTicks int            `json:"tail_ticks"`
 	TailRows  sqlfake.Result `json:"tail_rows"`
 	Sched     []byte         `json:"sched"`
-	SchedSeed uint64         `json:"sched_seed"`
-	Preempt   int64          `json:"preempt,omitempty"` // see simrt.SetPreempt
+	// TailMidnight: the tail starts two seconds before a UTC date change (plans carry date bounds for partition pruning)
+	TailMidnight bool   `json:"tail_midnight,omitempty"`
+	SchedSeed    uint64 `json:"sched_seed"`
+	Preempt      int64  `json:"preempt,omitempty"` // see simrt.SetPreempt
 }
 
 func genC14(rt *rapid.T) C14Scenario {
@@ -71,6 +73,7 @@ func genC14(rt *rapid.T) C14Scenario {
 	if (s.Subject.Kind == "query_range" || s.Subject.Kind == "query") && strings.HasPrefix(strings.TrimSpace(s.Subject.Query), "{") {
 		s.TailTicks = rapid.IntRange(0, 4).Draw(rt, "ticks")
 		s.TailRows = sqlfake.Result{Series: rapid.IntRange(0, 2).Draw(rt, "tail.series"), RowsPer: rapid.IntRange(0, 3).Draw(rt, "tail.rows"), StepNs: 1000000}
+		s.TailMidnight = s.TailTicks >= 3 && rapid.IntRange(0, 2).Draw(rt, "tail.midnight") == 0
 	}
 	s.Sched = rapid.SliceOfN(rapid.Byte(), 0, 16).Draw(rt, "sched")
 	s.SchedSeed = rapid.Uint64().Draw(rt, "schedseed")
@@ -178,6 +181,7 @@ func c14body(ri *simcheck.RunInfo, s C14Scenario) {
 	aborted := false
 	byPosition := false
 	var tickSQL [][]string
+	var tailDateViol string
 	done := make(chan struct{})
 	sim.Spawn("client", func() {
 		defer close(done)
@@ -237,11 +241,11 @@ func c14body(ri *simcheck.RunInfo, s C14Scenario) {
 		td := make(chan struct{})
 		sim.Spawn("client", func() {
 			defer close(td)
-			tickSQL = runTail(st, sys, s)
+			tickSQL = runTail(st, sys, s, &tailDateViol)
 		})
 		select {
 		case <-td:
-		case <-time.After(time.Duration(s.TailTicks+30) * time.Second):
+		case <-time.After(25*time.Hour + time.Duration(s.TailTicks+30)*time.Second):
 		case <-sim.Killed():
 		}
 	}
@@ -336,6 +340,9 @@ func c14body(ri *simcheck.RunInfo, s C14Scenario) {
 			}
 		}
 	}
+	if tailDateViol != "" && len(sim.Crashes) == 0 && sim.Livelock == "" {
+		add("plan-not-reexecutable", "re-executing a prepared plan keeps the first execution's date bounds: "+classOfQuery(s.Subject.Query), tailDateViol)
+	}
 	// portions of a complex TraceQL request: one prepared plan executed once per portion; apart from the
 	// portion selector and the list of already found trace ids every execution must be the same statement
 	var portions []string
@@ -428,8 +435,14 @@ func (st *runState) clientRec(sys *System, ci int, r Req, cb func(*reqRec)) {
 }
 
 // runTail drives QueryRangeService.Tail the way the controller does: read until a deadline, Close, drain.
-func runTail(st *runState, sys *System, s C14Scenario) [][]string {
+func runTail(st *runState, sys *System, s C14Scenario, dateViol *string) [][]string {
 	svc := &service.QueryRangeService{ServiceData: model.ServiceData{Session: sys.Reg}}
+	if s.TailMidnight {
+		now := time.Now().UTC()
+		next := time.Date(now.Year(), now.Month(), now.Day(), 0, 0, 0, 0, time.UTC).Add(24 * time.Hour)
+		time.Sleep(next.Sub(now) - 2*time.Second + simrt.Skew())
+		simrt.Yield("tail:before-midnight")
+	}
 	res := s.TailRows
 	// rows must be newer than "now - 5 min" to move the tail cursor
 	res.BaseNs = time.Now().Add(-time.Minute).UnixNano()
@@ -453,6 +466,55 @@ loop:
 		}
 		simrt.Yield("tail-consumer")
 	}
+	// a fresh translation of the same query, executed at the same moment as the next re-execution of the old plan:
+	// both must search the same days
+	res2 := s.TailRows
+	res2.BaseNs = res.BaseNs
+	ctx2, cancel2 := context.WithCancel(sqlfake.WithScript(context.Background(), &res2))
+	defer cancel2()
+	from2 := st.db.Count()
+	if w2, err := svc.Tail(ctx2, s.Subject.Query); err == nil {
+		d2 := time.After(1500*time.Millisecond + simrt.Skew())
+	loop2:
+		for {
+			select {
+			case _, ok := <-w2.GetRes():
+				if !ok {
+					break loop2
+				}
+			case _, ok := <-w.GetRes():
+				if !ok {
+					break loop2
+				}
+			case <-d2:
+				break loop2
+			}
+			simrt.Yield("tail-consumer")
+		}
+		w2.Close()
+		cancel2()
+		go func() {
+			for range w2.GetRes() {
+			}
+		}()
+		var fresh, old *sqlfake.Stmt
+		for _, stt := range st.db.ForScript(&res2, from2) {
+			if stt.Class == "data" && fresh == nil {
+				fresh = stt
+			}
+		}
+		for _, stt := range st.db.ForScript(&res, from) {
+			if stt.Class == "data" {
+				old = stt
+			}
+		}
+		if fresh != nil && old != nil && fresh.StartT.UTC().Format("2006-01-02") == old.StartT.UTC().Format("2006-01-02") {
+			if fd, od := maxDate(fresh.SQL), maxDate(old.SQL); fd != "" && od != "" && od < fd {
+				*dateViol = fmt.Sprintf("live tail of %q: executed at %s the re-executed plan searches days up to %s, a fresh translation of the same query up to %s",
+					s.Subject.Query, old.StartT.UTC().Format(time.RFC3339), od, fd)
+			}
+		}
+	}
 	w.Close()
 	cancel()
 	go func() {
@@ -460,10 +522,23 @@ loop:
 		}
 	}()
 	var ticks [][]string
-	for _, stt := range st.db.Since(from) {
+	for _, stt := range st.db.ForScript(&res, from) {
 		if stt.Class == "data" {
 			ticks = append(ticks, []string{canon(stt.SQL), maxTime(stt.SQL)})
 		}
 	}
 	return ticks
+}
+
+var reDateOnly = regexp.MustCompile(`'([0-9]{4}-[0-9]{2}-[0-9]{2})'`)
+
+// maxDate returns the largest date literal of a statement (the last day it searches).
+func maxDate(q string) string {
+	m := ""
+	for _, x := range reDateOnly.FindAllStringSubmatch(q, -1) {
+		if x[1] > m {
+			m = x[1]
+		}
+	}
+	return m
 }
